@@ -70,6 +70,10 @@ def build_models(sig, names, extra_meta=None):
                         kw['condition'] = models.Q(**{'%s__gt' % names.field(ix['cond']): 0})
                     idxs.append(models.Index(**kw))
                 meta['indexes'] = idxs
+            if ms.get('cons'):
+                from .absmodel import concrete_constraint
+                meta['constraints'] = [concrete_constraint(c, names, as_dict_form=False)
+                                       for c in ms['cons']]
             if extra_meta and mn in extra_meta:
                 meta.update(extra_meta[mn])
             attrs = {'__module__': app + '.models',
